@@ -122,7 +122,7 @@ def main(prop, tier, replay=None):
                             fails_other[t] = fails_other.get(t, 0) + 1
                 CC.run_sessions(drv, rng, info["tables"]["defender"], cfail23, coord_stats, 40 if quick else 400, 45,
                                 {"burst": 0.0, "leave": 0.03, "bad": 0.01, "roles": ["Attacker", "Attacker", "Defender"]})
-                CC.directed_sessions(drv, rng, info["tables"]["defender"], cfail23, coord_stats, 12 if quick else 200)
+                CC.directed_sessions(drv, rng, info["tables"]["defender"], cfail23, coord_stats, 24 if quick else 300)
             if prop == "C11" and info.get("tables"):
                 # coordinator level: the views agents are actually SENT (start of every episode, static and dynamic addresses,
                 # 'all_local' / 'random' start positions) list only hosts that exist and everything the start position lists
